@@ -44,7 +44,7 @@ HOUR = 3600 * 10**6
 
 
 def plan(tier, verif_seed):
-    n = 480 if tier == "quick" else 10**9
+    n = 800 if tier == "quick" else 10**9
     for i in range(n):
         yield {"i": i, "seed": derive_seed(verif_seed, PROPERTY, i), "keep_sample": i < 1,
                "conc": i % 4 == 3}
@@ -155,6 +155,21 @@ def generate(spec):
         scen = rng.choice(["base", "alt"])
         ops.append({"t_us": rng.randrange(0, 12 * 10**6), "inst": -1, "op": "server_run", "scenario": scen,
                     "settings": _settings(rng, template, rng.randrange(4), scen), "equations": eqs[:2]})
+    if k >= 2 and rng.random() < 0.3:
+        # two instances end up in sessions of the SAME layout (scenario, equations, one step taken) that differ only in the
+        # settings their steps carried, and both ask for their results: each gets its own
+        tmax_ = max(o["t_us"] for o in ops)
+        lay = {"scenarios": ["base"], "equations": eqs[:2]}
+        seq_ = []
+        for j_ in (0, 1):
+            seq_ += [{"inst": j_, "op": "end_session"}, dict({"inst": j_, "op": "begin_session", "settings": {}}, **lay)]
+        for j_ in (0, 1):
+            seq_.append({"inst": j_, "op": "run_step", "settings": _settings(rng, template, j_ + 5, "base")})
+        for j_ in (0, 1):
+            seq_.append({"inst": j_, "op": rng.choice(["session_results", "flat_session_results"])})
+        for n_, o_ in enumerate(seq_):
+            o_["t_us"] = tmax_ + 1000 * (n_ + 1)
+            ops.append(o_)
     ops.sort(key=lambda o: (o["t_us"], o["inst"]))
     # unique time stamps (two requests cannot be served at the same instant by a sequential server)
     last = -1
